@@ -1506,12 +1506,21 @@ type c20SxgCase struct {
 	explicit bool
 	defaults bool // no -uri / -validityUrl / -certUrl / -miRecordSize / -expire flags at all
 	leafOnly bool
+	path     string // "" = /hello.html; otherwise a spelling of the -uri path that url.Parse(..).String() would respell
 }
 
 func (k c20SxgCase) String() string {
-	return fmt.Sprintf("%s:hdr=%s:key=%s:rs=%d:expire=%s:status=%d:content=%d:date-explicit=%v:defaults=%v:leaf-only=%v",
+	s := fmt.Sprintf("%s:hdr=%s:key=%s:rs=%d:expire=%s:status=%d:content=%d:date-explicit=%v:defaults=%v:leaf-only=%v",
 		k.ver, k.hdr.name, k.key.name, k.rs, k.expire, k.status, k.clen, k.explicit, k.defaults, k.leafOnly)
+	if k.path != "" {
+		s += fmt.Sprintf(":uri-path=%q", k.path)
+	}
+	return s
 }
+
+// spellings of the -uri value that are not fixed points of url.Parse(..).String(): the signer signs the bytes it was
+// given, so every later tool has to keep exactly those bytes
+var c20URIPaths = []string{"", "/caf\u00e9/menu.html", "/hello world.html", "/a%2fb%41.html", "/x{y}|z^.html", "/q?a b=c d", "/e?"}
 
 // c20SxgGen writes the inputs and runs gen-certurl and gen-signedexchange.
 // It returns the arguments used, the content and the generator's result.
@@ -1539,6 +1548,9 @@ func c20SxgGen(s *c20Sess, k c20SxgCase, seed int64, out string) (uri string, co
 		host = "b.test"
 	}
 	uri = "https://" + host + "/hello.html"
+	if k.path != "" {
+		uri = "https://" + host + k.path
+	}
 	args := []string{"-version", k.ver, "-content", "payload.bin", "-certificate", "chain.pem", "-privateKey", "priv.key", "-o", out}
 	if k.defaults {
 		uri = "https://example.com/index.html" // the documented default of -uri
@@ -1574,6 +1586,11 @@ func c20SxgRun(c *mc.Ctx) {
 	k.explicit = c.Dev(2, "date") == 1
 	k.leafOnly = c.Dev(2, "chain") == 1
 	k.defaults = c.Dev(2, "defaults") == 1
+	k.path = c20URIPaths[c.Dev(len(c20URIPaths), "uri spelling")]
+	if k.defaults && k.path != "" {
+		c.Outcome("skipped: the all-defaults invocation has no -uri to vary")
+		return
+	}
 	if k.defaults && (k.rs != 4096 || k.expire != "1h") {
 		c.Outcome("skipped: the all-defaults invocation has no -miRecordSize / -expire to vary")
 		return
